@@ -17,6 +17,7 @@ import Glb.Driver.Router
 import Glb.Driver.Store
 import Glb.Driver.Nano
 import Glb.Driver.TaskLaneTrace
+import Glb.Driver.AuxFns
 import Glb.Driver.Daemon
 
 open Glb.Driver
@@ -43,4 +44,5 @@ def main (args : List String) : IO UInt32 := do
   | ["store"] => loop stdin stdout ({} : Store.DSt) Store.step; return 0
   | ["nano"] => loop stdin stdout () Nano.step; return 0
   | ["tltrace"] => loop stdin stdout (0 : Nat) TaskLaneTrace.step; return 0
+  | ["aux"] => loop stdin stdout () AuxFns.step; return 0
   | _ => IO.eprintln "usage: driver <stream>"; return 2
